@@ -275,7 +275,7 @@ func (p *Prog) DominatingFacts(f *Func, n ast.Node) FactSet {
 		for _, ft := range p.FactsOfCond(e.Cond, e.Val) {
 			s[ft.Key] = ft
 		}
-		for _, ft := range p.flagFacts(f, e.Cond, e.Val, 0) {
+		for _, ft := range p.flagFacts(f, e.Cond, e.Val, 0, true) {
 			if _, dup := s[ft.Key]; !dup {
 				s[ft.Key] = ft
 			}
@@ -639,44 +639,197 @@ func (p *Prog) enclosingIfFacts(f *Func, root ast.Node, n ast.Node) []Fact {
 	return out
 }
 
-// flagFacts: a test of a boolean flag variable carries the facts under which
-// the flag was given that value. If every assignment to the local r in f is a
-// constant, then where r is known to be v the facts common to all "r = v"
-// assignments hold, provided they cannot have changed since: only facts over
-// single-assignment locals (no fields, no calls) are carried. This makes
-// "ok := check(); if !ok { return }" and an inlined boolean helper equivalent
-// to testing the conditions in place.
-func (p *Prog) flagFacts(f *Func, c *Cond, val bool, depth int) []Fact {
-	if c == nil || c.Op != "truth" || depth > 2 {
+// flagFacts: a test of a flag variable carries the facts under which the flag
+// was given that value.
+//
+//   - boolean flags: every assignment to the local is the constant true or
+//     false; where the flag is known to be v, the facts common to all "flag = v"
+//     sites hold;
+//   - nil flags (error, pointer, interface, slice, map locals): every
+//     assignment is either nil or an expression known to be non-nil at the
+//     site (a dominating "expr != nil" fact, or an address / composite
+//     literal); where the local is known to be (non-)nil, the facts common to
+//     the sites of that class hold;
+//   - a local defined once as a copy of another local stands for that local.
+//
+// Only facts that cannot have changed since are carried: facts over
+// single-assignment locals, without fields or calls. This makes
+// "ok := check(); if !ok { return }", "if err := step(); err != nil { return }"
+// over an inlined helper, and the conditions tested in place equivalent.
+func (p *Prog) flagFacts(f *Func, c *Cond, val bool, depth int, historical bool) []Fact {
+	if c == nil || depth > 3 {
 		return nil
 	}
-	e := unparen(c.X)
-	for {
-		if u, ok := e.(*ast.UnaryExpr); ok && u.Op == token.NOT {
-			e, val = unparen(u.X), !val
-			continue
+	var id *ast.Ident
+	class := ""
+	switch c.Op {
+	case "truth":
+		e := unparen(c.X)
+		for {
+			if u, ok := e.(*ast.UnaryExpr); ok && u.Op == token.NOT {
+				e, val = unparen(u.X), !val
+				continue
+			}
+			break
 		}
-		break
+		if be, ok := e.(*ast.BinaryExpr); ok && (be.Op == token.EQL || be.Op == token.NEQ) {
+			// x == nil / x != nil written as a truth condition
+			x, y := unparen(be.X), unparen(be.Y)
+			if p.isNilExpr(x) {
+				x, y = y, x
+			}
+			if xi, ok := x.(*ast.Ident); ok && p.isNilExpr(y) {
+				id = xi
+				if (be.Op == token.EQL) == val {
+					class = "nil"
+				} else {
+					class = "nonnil"
+				}
+			}
+			break
+		}
+		xi, ok := e.(*ast.Ident)
+		if !ok {
+			return nil
+		}
+		id = xi
+		class = "false"
+		if val {
+			class = "true"
+		}
+	case "==":
+		x, y := unparen(c.X), unparen(c.Y)
+		if y == nil {
+			return nil
+		}
+		if p.isNilExpr(x) {
+			x, y = y, x
+		}
+		xi, ok := x.(*ast.Ident)
+		if !ok || !p.isNilExpr(y) {
+			return nil
+		}
+		id = xi
+		class = "nonnil"
+		if val {
+			class = "nil"
+		}
+	default:
+		return nil
 	}
-	id, ok := e.(*ast.Ident)
-	if !ok {
+	if id == nil {
 		return nil
 	}
 	v, ok := p.ObjOf(id).(*types.Var)
-	if !ok || v.IsField() || v.Pkg() == nil || v.Parent() == v.Pkg().Scope() {
+	if !ok {
 		return nil
 	}
-	if b, isB := v.Type().Underlying().(*types.Basic); !isB || b.Kind() != types.Bool {
+	// the value tested is the one that reaches the test: a copy of another local stands for that local
+	use := id
+	for i := 0; i < 3; i++ {
+		d, okD := p.reachingDef(f, use, v)
+		if !okD || d.Rhs == nil {
+			break
+		}
+		rid, isID := unparen(d.Rhs).(*ast.Ident)
+		if !isID {
+			break
+		}
+		w, isVar := p.ObjOf(rid).(*types.Var)
+		if !isVar || w.IsField() || w.Pkg() == nil || w.Parent() == w.Pkg().Scope() {
+			break
+		}
+		v, use = w, rid
+	}
+	return p.flagClassFacts(f, v, class, depth, map[types.Object]bool{}, historical)
+}
+
+// historical: the facts are reported as "this test was passed on the way here" (what the structural
+// dominance queries mean); otherwise only facts that still hold (over single-assignment locals) are carried.
+func (p *Prog) flagClassFacts(f *Func, v *types.Var, class string, depth int, seen map[types.Object]bool, historical bool) []Fact {
+	if v == nil || seen[v] || v.IsField() || v.Pkg() == nil || v.Parent() == v.Pkg().Scope() || depth > 3 {
 		return nil
+	}
+	seen[v] = true
+	isBool := false
+	if b, isB := v.Type().Underlying().(*types.Basic); isB && b.Kind() == types.Bool {
+		isBool = true
+	}
+	if isBool != (class == "true" || class == "false") {
+		return nil
+	}
+	if !isBool {
+		switch v.Type().Underlying().(type) {
+		case *types.Pointer, *types.Interface, *types.Slice, *types.Map, *types.Chan, *types.Signature:
+		default:
+			return nil
+		}
 	}
 	root := f
 	for root.Parent != nil {
 		root = root.Parent
 	}
-	// every assignment to the flag, anywhere in the enclosing declaration
-	var sites []ast.Node
-	var siteFn []*Func
+	if root.Body == nil || v.Pos() < root.Body.Pos() {
+		return nil // parameters and results are set by the caller
+	}
+	inlinerTemp := strings.HasPrefix(v.Name(), "inl") && strings.Contains(v.Name(), "_r")
+	type site struct {
+		n  ast.Node
+		fn *Func
+	}
+	var sites []site
+	var copies []*types.Var // the flag is a plain copy of these locals at its (single) definition
+	nDefs := 0
 	okAll := true
+	classify := func(fn *Func, n ast.Node, rhs ast.Expr) {
+		nDefs++
+		rhs = unparen(rhs)
+		got := ""
+		if isBool {
+			if cv, isC := p.ConstVal(rhs); isC {
+				got = "false"
+				if cv == "true" {
+					got = "true"
+				}
+			}
+		} else {
+			switch x := rhs.(type) {
+			case *ast.UnaryExpr:
+				if x.Op == token.AND {
+					got = "nonnil"
+				}
+			case *ast.CompositeLit:
+				got = "nonnil"
+			}
+			if p.isNilExpr(rhs) {
+				got = "nil"
+			}
+			if got == "" {
+				// an expression known to be non-nil (or nil) where it is assigned
+				for _, d := range p.dominatingFactListDepth(fn, n, depth+1) {
+					if d.Op == "==" && d.Y != nil && p.isNilExpr(d.Y) && p.Canon(d.X) == p.Canon(rhs) {
+						got = "nonnil"
+						if d.Val {
+							got = "nil"
+						}
+					}
+				}
+			}
+		}
+		if got == "" {
+			if rid, isID := rhs.(*ast.Ident); isID {
+				if w, isVar := p.ObjOf(rid).(*types.Var); isVar && !w.IsField() {
+					copies = append(copies, w)
+					return
+				}
+			}
+			okAll = false
+			return
+		}
+		if got == class {
+			sites = append(sites, site{n, fn})
+		}
+	}
 	var scan func(fn *Func)
 	scan = func(fn *Func) {
 		walkBody(fn, func(n ast.Node) bool {
@@ -691,15 +844,7 @@ func (p *Prog) flagFacts(f *Func, c *Cond, val bool, depth int) []Fact {
 						okAll = false
 						continue
 					}
-					cv, isC := p.ConstVal(x.Rhs[i])
-					if !isC {
-						okAll = false
-						continue
-					}
-					if (cv == "true") == val {
-						sites = append(sites, x)
-						siteFn = append(siteFn, fn)
-					}
+					classify(fn, x, x.Rhs[i])
 				}
 			case *ast.ValueSpec:
 				for i, nm := range x.Names {
@@ -707,16 +852,13 @@ func (p *Prog) flagFacts(f *Func, c *Cond, val bool, depth int) []Fact {
 						continue
 					}
 					if i < len(x.Values) {
-						cv, isC := p.ConstVal(x.Values[i])
-						if !isC {
-							okAll = false
-						} else if (cv == "true") == val {
-							sites = append(sites, x)
-							siteFn = append(siteFn, fn)
+						classify(fn, x, x.Values[i])
+					} else if !inlinerTemp {
+						// the zero value: false / nil, with no facts (it never reaches a test for an inliner temporary)
+						nDefs++
+						if class == "false" || class == "nil" {
+							sites = append(sites, site{nil, fn})
 						}
-					} else if !val {
-						sites = append(sites, x) // zero value: false
-						siteFn = append(siteFn, fn)
 					}
 				}
 			case *ast.UnaryExpr:
@@ -725,7 +867,14 @@ func (p *Prog) flagFacts(f *Func, c *Cond, val bool, depth int) []Fact {
 						okAll = false
 					}
 				}
-			case *ast.IncDecStmt, *ast.RangeStmt:
+			case *ast.RangeStmt:
+				for _, e := range []ast.Expr{x.Key, x.Value} {
+					if e != nil {
+						if lid, isID := unparen(e).(*ast.Ident); isID && p.ObjOf(lid) == types.Object(v) {
+							okAll = false
+						}
+					}
+				}
 			}
 			return true
 		})
@@ -734,11 +883,17 @@ func (p *Prog) flagFacts(f *Func, c *Cond, val bool, depth int) []Fact {
 		}
 	}
 	scan(root)
-	if !okAll || len(sites) == 0 {
+	if !okAll {
 		return nil
 	}
-	// parameters and results are "assigned" by the caller
-	if v.Pos() < root.Body.Pos() {
+	if len(copies) > 0 {
+		// a plain copy: only if it is the flag's single definition
+		if nDefs != 1 || len(copies) != 1 || len(sites) != 0 {
+			return nil
+		}
+		return p.flagClassFacts(f, copies[0], class, depth+1, seen, historical)
+	}
+	if len(sites) == 0 {
 		return nil
 	}
 	stable := func(ft Fact) bool {
@@ -750,25 +905,28 @@ func (p *Prog) flagFacts(f *Func, c *Cond, val bool, depth int) []Fact {
 			if o == types.Object(v) {
 				return false
 			}
-			if _, ok := p.SingleDef(f, o); !ok {
-				// parameters never assigned count as stable
-				ds := 0
-				for fn := f; fn != nil; fn = fn.Parent {
-					ds += len(p.DefsOf(fn, o))
+			n := 0
+			var cnt func(fn *Func)
+			cnt = func(fn *Func) {
+				n += len(p.DefsOf(fn, o))
+				for _, l := range fn.Lits {
+					cnt(l)
 				}
-				if ds != 0 {
-					return false
-				}
+			}
+			cnt(root)
+			isParam := o.Pos() < root.Body.Pos()
+			if (isParam && n != 0) || (!isParam && n != 1) {
+				return false
 			}
 		}
 		return true
 	}
 	var common map[string]Fact
-	for i, s := range sites {
+	for _, s := range sites {
 		cur := map[string]Fact{}
-		if _, isSpec := s.(*ast.ValueSpec); !isSpec || val {
-			for _, ft := range p.dominatingFactListDepth(siteFn[i], s, depth+1) {
-				if (ft.Op == "==" || ft.Op == "truth" || ft.Op == "<") && stable(ft) {
+		if s.n != nil {
+			for _, ft := range p.dominatingFactListDepth(s.fn, s.n, depth+1) {
+				if (ft.Op == "==" || ft.Op == "truth" || ft.Op == "<") && (historical || stable(ft)) {
 					cur[ft.Key+fmt.Sprint(ft.Val)] = ft
 				}
 			}
@@ -804,7 +962,7 @@ func (p *Prog) dominatingFactListDepth(f *Func, n ast.Node, depth int) []Fact {
 	var out []Fact
 	for _, e := range g.DominatingEdges(loc) {
 		out = append(out, p.FactsOfCond(e.Cond, e.Val)...)
-		out = append(out, p.flagFacts(f, e.Cond, e.Val, depth)...)
+		out = append(out, p.flagFacts(f, e.Cond, e.Val, depth, true)...)
 	}
 	return out
 }
@@ -827,7 +985,7 @@ func (p *Prog) flagIsExactly(f *Func, ft Fact) bool {
 	if !ok {
 		return false
 	}
-	implied := p.flagFacts(f, &Cond{Op: "truth", X: id}, ft.Val, 0)
+	implied := p.flagFacts(f, &Cond{Op: "truth", X: id}, ft.Val, 0, true)
 	if len(implied) == 0 {
 		return false
 	}
